@@ -69,11 +69,12 @@ def run(check):
     types = ['double'] if tier == 'quick' else ['double', 'float']
     check.checker_cmd = 'clang++ -ast-dump=json | phqv lower | goto-cc | goto-instrument --dfcc --enforce-contract <operator> | cbmc --cvc5'
     check.assume('IEEE mode: binary32/binary64 round-to-nearest-even as modelled by CBMC; NaN results are unconstrained (r == spec || isnan(spec))')
-    check.notes.append('long double instantiations are the same template text; x87 arithmetic has no bit-precise obligation (CBMC long double is binary128)')
+    check.notes.append('long double: x87 arithmetic has no bit-precise obligation (CBMC long double is binary128); instead every operator instance of the long double instantiation is proved to compute the component-wise real operation on the stored values with no value narrowed below long double (C04.ld.*)')
     check.notes.append('operator instances that are not component-wise (dot/matrix products: C09; relations with dimensionless constants such as thermal strain: C18) are listed under not_componentwise and are not C04 obligations')
     jobs = []
     skipped_rule = []
     n_ops = 0
+    stdmath_obligations(check)
     for T in types:
         Q = Quant(check, types=(T,), other_types=(), conv=False, hash_=False)
         low = Q.low
@@ -217,9 +218,194 @@ def run(check):
         check.error('must-fire: expected >= 800 operator instances, found %d' % n_ops)
     run_jobs(check, jobs)
     check.assume('histories: any interleaving of compound assignments equals the chain of pure operators by induction over the history (each step is one discharged op= contract with frame)')
-    check.notes.append('std::abs/sqrt/... overloads for dimensionless scalars live in namespace std and are not yet under contract')
+    long_double_pass(check)
 
 
 def uniq(seen, name):
     seen[name] = seen.get(name, 0) + 1
     return name if seen[name] == 1 else '%s#%d' % (name, seen[name])
+
+
+STD_MATH = ['abs', 'cbrt', 'exp', 'log', 'log2', 'log10', 'pow', 'sqrt']
+
+
+def stdmath_obligations(check):
+    """std::abs/cbrt/exp/log/log2/log10/pow/sqrt overloaded for DimensionlessScalar<T> return exactly that function of
+    the stored number: symbolic execution of the instantiated overloads (all three numeric types; they live in namespace
+    std, so each is dumped with its own -ast-dump-filter=std::<name> and merged by node id)."""
+    from .. import astload, lower, replay
+    from ..symex import SymEx, mk, num, cmp, land, TRUE
+    from ..realob import SymCall, leaves
+    from ..ieeeob import write_replay
+    types = ['double', 'float', 'long double']
+    tu = '#include <PhQ/DimensionlessScalar.hpp>\nnamespace PhQ { namespace phqv_use {\n'
+    for i, t in enumerate(types):
+        tu += ('void use_math%d(const DimensionlessScalar<%s>& a, int n, %s e) { (void)std::abs(a); (void)std::cbrt(a); (void)std::exp(a); (void)std::log(a); '
+               '(void)std::log2(a); (void)std::log10(a); (void)std::pow(a, n); (void)std::pow(a, e); (void)std::sqrt(a); }\n') % (i, t, t)
+    tu += '} }\n'
+    wd = os.path.join(check.work, 'ast')
+    a = astload.Ast()
+    a.load(astload.dump(tu, wd, 'stdmath'))
+    for n in STD_MATH:
+        a.load(astload.dump(tu, wd, 'stdmath', filt='std::' + n))
+    low = lower.Lowerer(a)
+    seen = 0
+    for o in a.walk():
+        if not (o.get('kind') == 'FunctionDecl' and o.get('name') in STD_MATH and low.has_body(o) and a.byid.get(o['id']) is o
+                and any(x.get('kind') == 'TemplateArgument' for x in o.get('inner', ()))):
+            continue
+        ps = [c for c in o.get('inner', ()) if c.get('kind') == 'ParmVarDecl']
+        if not ps or 'DimensionlessScalar' not in ps[0]['type']['qualType']:
+            continue
+        nm = o['name']
+        sig = re.sub(r'\bconst\b|PhQ::|&|noexcept', '', o['type']['qualType']).replace('  ', ' ').strip()
+        ob = Ob('C04.stdmath.%s.%s' % (nm, re.sub(r'\W+', '_', sig).strip('_')), 'REAL', 'std::%s(%s)' % (nm, ps[0]['type']['qualType']),
+                'include/PhQ/DimensionlessScalar.hpp:%s' % ((o.get('loc') or {}).get('line') or (o.get('range', {}).get('begin', {}) or {}).get('line') or ''))
+        ob.backend = 'phqv symex (term identity)'
+        seen += 1
+        try:
+            f = low.lower_func(o)
+            S = SymEx(low)
+            sc = SymCall(low, f, symex=S)
+            x = leaves(sc.pre[f.params[0][0]])[0]
+            if nm == 'abs':
+                want = ('ite', ('<=', num(0), x), x, ('neg', x))
+                ok = sc.ret == want
+            elif nm == 'sqrt':
+                # the result is the square root symbol whose contract (r >= 0, r*r == x) was recorded for argument x
+                want = 'sqrt(x)'
+                ok = isinstance(sc.ret, tuple) and sc.ret[0] == 'sym' and any(c == land(cmp('>=', sc.ret, num(0)), cmp('==', mk('*', sc.ret, sc.ret), x)) for c in S.assumes)
+            elif nm == 'pow':
+                e = sc.pre[f.params[1][0]]
+                want = ('app', 'pow', (x, e))
+                ok = sc.ret == want
+            else:
+                want = ('app', nm, (x,))
+                ok = sc.ret == want
+            ob.text = 'std::%s(q%s) == %s(q.Value()%s) as a term over the stored number, for all values' % (nm, ', e' if nm == 'pow' else '', nm, ', e' if nm == 'pow' else '')
+            ob.status = 'discharged' if ok else 'failed'
+            if not ok:
+                ob.detail = 'returns %r' % (sc.ret,)
+            check.under_contract(f)
+        except Unsupported as e:
+            ob.status, ob.detail = 'error', 'Unsupported: %s' % e
+        check.add(ob)
+        if ob.status == 'failed':
+            T = ps[0]['type']['qualType'].split('<')[1].split('>')[0]
+            suf = {'float': 'f', 'double': '', 'long double': 'l'}[T]
+            arg2 = ', e' if nm == 'pow' else ''
+            e_t = ps[1]['type']['qualType'].replace('const ', '') if nm == 'pow' else T
+            cpp = ('#include <PhQ/DimensionlessScalar.hpp>\n#include <cmath>\n#include <cstdio>\nint main() { int bad = 0; const %s xs[] = {0.25, 2.0, 3.5, 10.0, 100.0}; const %s e = 3;\n'
+                   '  for (%s x : xs) { PhQ::DimensionlessScalar<%s> q(x); const %s got = std::%s(q%s); const %s want = std::%s(x%s);\n'
+                   '    if (!(got == want)) { std::printf("MISMATCH std::%s(%%.17Lg) = %%.17Lg, the function of the stored number is %%.17Lg\\n", (long double)x, (long double)got, (long double)want); bad++; } }\n'
+                   '  return bad ? 1 : 0; }\n') % (T, e_t, T, T, T, nm, arg2, T, nm, arg2, nm)
+            rec = {'property': 'C04', 'obligation': ob.name, 'function': ob.function, 'source': ob.loc, 'verifier_output': ob.detail, 'cpp': cpp, 'confirmed': False}
+            r, err = replay.build_and_run(cpp, os.path.join(check.work, 'replay'), 'r_' + re.sub(r'\W+', '_', ob.name))
+            if err:
+                rec['replay_error'] = err[:500]
+            elif 'MISMATCH' in r.stdout:
+                rec['confirmed'], rec['mismatch'], rec['native_output'] = True, r.stdout.strip().split('\n')[:5], r.stdout[:800]
+            check.violations.append((ob, write_replay(check, ob, rec), '' if rec['confirmed'] else 'no-failing-input-found'))
+    check.extra['std_math_overloads_seen'] = seen
+    if seen != 27:
+        check.error('must-fire: expected 27 std:: math overload instantiations (8 functions, pow twice, 3 numeric types), found %d' % seen)
+
+
+def long_double_pass(check):
+    """long double instantiation: each component-wise operator equals the real operation on the stored components
+    (symbolic execution + z3) and no value is narrowed below long double on the way (precision audit)."""
+    from ..symex import SymEx, mk, num, cmp
+    from ..realob import SymCall, RealTask, leaves, conj
+    from ..ieeeob import write_replay
+    T = 'long double'
+    Q = Quant(check, types=(T,), other_types=(), conv=False, hash_=False)
+    low = Q.low
+    tasks = []
+    seen = {}
+
+    def task(f, op, compound, base):
+        S = SymEx(low)
+        sc = SymCall(low, f, symex=S)
+        a = leaves(sc.pre[f.params[0][0]])
+        b = leaves(sc.pre[f.params[1][0]])
+        if compound:
+            r = leaves(sc.post[f.params[0][0]])
+        else:
+            if sc.ret is None:
+                return
+            r = leaves(sc.ret)
+        rule = shape_rule(op, len(a), len(b), len(r))
+        if rule is None:
+            return
+        goal = conj([cmp('==', r[ri], mk(op, a[ai], b[bi])) for ri, ai, bi in rule])
+        t = RealTask(check, uniq(seen, base), S, goal, assumes=[c for c, _ in S.domain], function=f.qualname, loc=Q.loc(f), timeout=60)
+        t.ob.text = 'long double instantiation: result component i == (a_i %s b_i) over the reals, and no value is narrowed below long double' % op
+        t.meta = (f, op, rule, compound)
+        tasks.append(t)
+        check.under_contract(f)
+    OPN = {'+': 'plus', '-': 'minus', '*': 'times', '/': 'over'}
+    for cls in [c for c in Q.names if c not in BASES]:
+        canon = Q.canon(cls, T)
+        if canon not in low.records:
+            continue
+        for f in Q.methods(canon):
+            nm = f.node.get('name')
+            if f.kind != 'method' or len(f.params) != 2 or nm not in BINOPS and nm not in COMPOUND:
+                continue
+            try:
+                lts = replay.leaf_types(low, f.params[0][1][1]) + replay.leaf_types(low, f.params[1][1][1] if f.params[1][1][0] == 'ptr' else f.params[1][1])
+                if not all_float(lts, T):
+                    continue
+                bt = tstr(f.params[1][1][1] if f.params[1][1][0] == 'ptr' else f.params[1][1])
+                op = BINOPS.get(nm) or COMPOUND[nm]
+                task(f, op, nm in COMPOUND, 'C04.ld.%s.%s.%s.%s' % ('opassign' if nm in COMPOUND else 'op', cls, OPN[op], re.sub(r'<.*', '', bt) or 'number'))
+            except Unsupported:
+                continue
+    for f in Q.free_functions(names=set(BINOPS)):
+        if len(f.params) != 2 or f.ret == ('void',):
+            continue
+        try:
+            pa = f.params[0][1][1] if f.params[0][1][0] == 'ptr' else f.params[0][1]
+            pb = f.params[1][1][1] if f.params[1][1][0] == 'ptr' else f.params[1][1]
+            if not all_float(replay.leaf_types(low, pa) + replay.leaf_types(low, pb) + replay.leaf_types(low, f.ret), T):
+                continue
+            op = BINOPS[f.node['name']]
+            task(f, op, False, 'C04.ld.free.%s.%s.%s' % (re.sub(r'<.*', '', tstr(pa)) or 'number', OPN[op], re.sub(r'<.*', '', tstr(pb)) or 'number'))
+        except Unsupported:
+            continue
+    check.extra['long_double_operator_instances'] = len(tasks)
+    if len(tasks) < 800:
+        check.error('must-fire: expected >= 800 long double operator instances, found %d' % len(tasks))
+    for t, ob in zip(tasks, pmap(lambda t: t.run(), tasks)):
+        check.add(ob)
+        if ob.status == 'failed':
+            f, op, rule, compound = t.meta
+            rec = {'property': 'C04', 'obligation': ob.name, 'function': ob.function, 'source': ob.loc, 'verifier_output': ob.detail, 'confirmed': False}
+            try:
+                vals = [Fraction(1, 3), Fraction(-7, 3), Fraction(10, 7), Fraction(1, 10), Fraction(22, 7), Fraction(-5, 9), Fraction(13, 11), Fraction(3, 17), Fraction(9, 19)]
+                inputs, k = {}, 0
+                for pn, pt in f.params:
+                    n = len(replay.leaf_types(low, pt[1] if pt[0] == 'ptr' else pt))
+                    from ..cemit import round_to
+                    inputs[pn] = [round_to(vals[(k + i) % len(vals)], T) for i in range(n)]
+                    k += n
+                from ..ieeeob import default_includes
+                cpp = replay.NativeCall(low, f).program(inputs, includes=default_includes(low, f))
+                r, err = replay.build_and_run(cpp, os.path.join(check.work, 'replay'), 'r_' + re.sub(r'\W+', '_', ob.name)[:150])
+                if err:
+                    rec['replay_error'] = err[:500]
+                else:
+                    out = replay.parse_out(r.stdout)
+                    got = out.get('POST ' + f.params[0][0]) if compound else out.get('RET')
+                    a, b = inputs[f.params[0][0]], inputs[f.params[1][0]]
+                    bad = []
+                    for ri, ai, bi in rule:
+                        exact = {'+': a[ai] + b[bi], '-': a[ai] - b[bi], '*': a[ai] * b[bi], '/': a[ai] / b[bi]}[op]
+                        want = round_to(exact, T)
+                        if got is not None and Fraction(got[ri]) != want:
+                            bad.append('component %d: %s %s %s correctly rounded to long double is %s, the library returns %s' % (ri, a[ai], op, b[bi], want, got[ri]))
+                    if bad:
+                        rec.update({'confirmed': True, 'mismatch': bad[:4], 'cpp': cpp, 'native_output': r.stdout, 'inputs': {k2: [str(x) for x in v] for k2, v in inputs.items()}})
+            except Exception as e:
+                rec['replay_error'] = '%s: %s' % (type(e).__name__, e)
+            check.violations.append((ob, write_replay(check, ob, rec), '' if rec['confirmed'] else 'no-failing-input-found'))
